@@ -181,3 +181,50 @@ def r18_3(ctx, rr):
     (n1, s1), (n2, s2) = sorted(sums.items())
     rr.instances += 1
     rr.check(sorted(set(s1["cursor_ops"])) == sorted(set(s2["cursor_ops"])) and sorted(set(s1["split_index"])) == sorted(set(s2["split_index"])), "ShardIterator::next:file~memory", "the file-backed and the memory-backed shard iterators disagree on cursor updates or on the split index: %s vs %s" % (sorted(set(s1["cursor_ops"])), sorted(set(s2["cursor_ops"]))), a.span)
+
+
+@rule("R18.4", props=["C18"], floor=1, title="file-backed split: the read loop consumes exactly the pairs of the bucket (while remaining > 0: read min(buffer, remaining); remaining -= read)")
+def r18_4(ctx, rr):
+    F = ctx.F()
+    bs = [b for b in F.find(r"^<utils::sig_store::ShardIterator<S, V, .*, T> as std::iter::Iterator>::next$") if "BufReader" in b.key]
+    if len(bs) != 1:
+        raise AnchorMissing("file-backed ShardIterator::next not found")
+    b = bs[0]
+    T = Termizer(F, b)
+    ok = False
+    why = "no `while remaining > 0` read loop over the bucket"
+    for n in walk(b.body):
+        if n.get("k") == "Loop" and n.get("src") == "While":
+            body = n["body"]
+            st = body.get("expr") or (body["stmts"][-1] if body["stmts"] else None)
+            if st is None or st.get("k") != "If" or st["c"].get("k") != "Binary":
+                continue
+            c = st["c"]
+            # remaining > 0
+            if not (c["op"] in (">", "!=") and c["l"].get("k") == "Path" and c["r"].get("v") == "0"):
+                continue
+            rid = c["l"]["id"]
+            if not any(x.get("k") == "MethodCall" and x["name"] == "read_exact" for x in walk(st["th"])):
+                continue
+            # remaining initialised from buf_sizes[next_bucket]
+            init_ok = False
+            for l in walk(b.body):
+                if l.get("k") == "LetStmt" and l["pat"].get("k") == "PBind" and l["pat"]["id"] == rid and "init" in l:
+                    it = T.term(l["init"])
+                    init_ok = it[0] == "index" and it[1][0] == "field" and it[1][2] == "buf_sizes" and it[2][0] == "field" and it[2][2] == "next_bucket"
+            decs = [x for x in walk(st["th"]) if x.get("k") == "AssignOp" and x["op"] == "-=" and x["l"].get("k") == "Path" and x["l"].get("id") == rid]
+            amount = None
+            if len(decs) == 1 and decs[0]["r"].get("k") == "Path":
+                aid = decs[0]["r"]["id"]
+                for l in walk(st["th"]):
+                    if l.get("k") == "LetStmt" and l["pat"].get("k") == "PBind" and l["pat"]["id"] == aid and "init" in l:
+                        at = T.term(l["init"])
+                        if at[0] == "op" and at[1] == "min" and any(y[0] == "var" and str(y[2]) == str(rid) for y in (at[2], at[3])):
+                            amount = aid
+            setlens = [x for x in walk(st["th"]) if x.get("k") == "MethodCall" and x["name"] == "set_len" and x["args"] and x["args"][0].get("k") == "Path" and x["args"][0].get("id") == amount]
+            if init_ok and amount is not None and setlens:
+                ok = True
+            else:
+                why = "read loop found but %s" % ("the remaining count does not start at buf_sizes[next_bucket]" if not init_ok else "each round must read min(buffer, remaining) pairs into a buffer of that length and subtract that amount")
+    rr.instances += 1
+    rr.check(ok, "ShardIterator::next[file]:split-read-loop", "the file-backed split must read the whole bucket: %s" % why, b.span)
